@@ -34,7 +34,8 @@ var propSpecs = map[string]*PropSpec{
 	"C06": {ID: "C06", Pkgs: []string{"./benchproc", "./benchproc/internal/parse"}},
 	"C07": {ID: "C07", Pkgs: []string{"./benchproc", "./benchproc/internal/parse"}},
 	"C08": {ID: "C08", Pkgs: []string{"./benchproc"}},
-	"C09": {ID: "C09", Pkgs: []string{"./benchproc"}},
+	"C09": {ID: "C09", Pkgs: []string{"./benchproc"}, BoundedChecks: []boundedSpec{
+		{"benchproc", "keyorder", "the documented per-field orders against reference semantics (incl. the fuzzy number parser, which is only under a determinism assumption), first-observation ranks of .config sub-fields, the flattened-field cache, and the order axioms / arrangement independence of SortKeys on concrete key sets"}}},
 	"C10": {ID: "C10", Pkgs: []string{"./benchunit"}},
 	"C11": {ID: "C11", Pkgs: []string{"./internal/stats"}},
 	"C12": {ID: "C12", Pkgs: []string{"./internal/stats"}},
